@@ -198,7 +198,7 @@ class AsyncBaseClient:
                 data = await self._handle_ws_message(message, websocket)
                 if data is _WS_COMPLETE:
                     break
-                if data:
+                if data is not None:
                     yield data
 
     def _process_variables(
